@@ -3335,6 +3335,11 @@ func (c S3ApiController) HeadObject(ctx *fiber.Ctx) error {
 		partNumber = &partNumberQuery
 	}
 
+	headAction := auth.GetObjectAction
+	if versionId != "" {
+		headAction = auth.GetObjectVersionAction
+	}
+
 	err := auth.VerifyAccess(ctx.Context(), c.be,
 		auth.AccessOptions{
 			Readonly:      c.readonly,
@@ -3344,7 +3349,7 @@ func (c S3ApiController) HeadObject(ctx *fiber.Ctx) error {
 			Acc:           acct,
 			Bucket:        bucket,
 			Object:        key,
-			Action:        auth.GetObjectAction,
+			Action:        headAction,
 		})
 	if err != nil {
 		return SendResponse(ctx, err,
